@@ -62,6 +62,25 @@ fn once_hits(call: u8) -> Option<i32> {
     .unwrap_or(None)
 }
 
+thread_local! {
+    /// descriptor accounting: (path suffix, descriptors this thread opened on such paths and has not closed)
+    static TRACK: RefCell<Option<(String, Vec<i32>)>> = const { RefCell::new(None) };
+}
+/// From now on, remember every descriptor the calling thread opens on a path with this suffix until it closes it.
+pub fn track_opens_of(path_suffix: &str) {
+    TRACK.with(|t| *t.borrow_mut() = Some((path_suffix.to_string(), vec![])));
+}
+/// Ends the accounting; returns the descriptors still open (and closes them: the harness process must not run
+/// out of descriptors because the code under test leaks them).
+pub fn take_tracked() -> usize {
+    let left = TRACK.with(|t| t.borrow_mut().take()).map(|(_, v)| v).unwrap_or_default();
+    for fd in &left {
+        // SAFETY: descriptors recorded by `open` below and not closed since
+        unsafe { libc::syscall(libc::SYS_close, *fd) };
+    }
+    left.len()
+}
+
 /// Interposed over libc's (pass-through unless a transient failure is armed for this thread).
 ///
 /// # Safety
@@ -72,7 +91,42 @@ pub unsafe extern "C" fn open(path: *const libc::c_char, flags: libc::c_int, mod
         errno::set_errno(errno::Errno(e));
         return -1;
     }
-    libc::syscall(libc::SYS_openat, libc::AT_FDCWD, path, flags, mode) as libc::c_int
+    let fd = libc::syscall(libc::SYS_openat, libc::AT_FDCWD, path, flags, mode) as libc::c_int;
+    if fd >= 0 && !path.is_null() {
+        let _ = TRACK.try_with(|t| {
+            if let Ok(mut g) = t.try_borrow_mut() {
+                if let Some((suffix, fds)) = g.as_mut() {
+                    if std::ffi::CStr::from_ptr(path).to_bytes().ends_with(suffix.as_bytes()) {
+                        fds.push(fd);
+                    }
+                }
+            }
+        });
+    }
+    fd
+}
+
+/// # Safety
+/// Same contract as open(2).
+#[no_mangle]
+pub unsafe extern "C" fn open64(path: *const libc::c_char, flags: libc::c_int, mode: libc::c_uint) -> libc::c_int {
+    open(path, flags | libc::O_LARGEFILE, mode)
+}
+
+/// Interposed over libc's for the descriptor accounting above.
+///
+/// # Safety
+/// Same contract as close(2).
+#[no_mangle]
+pub unsafe extern "C" fn close(fd: libc::c_int) -> libc::c_int {
+    let _ = TRACK.try_with(|t| {
+        if let Ok(mut g) = t.try_borrow_mut() {
+            if let Some((_, fds)) = g.as_mut() {
+                fds.retain(|f| *f != fd);
+            }
+        }
+    });
+    libc::syscall(libc::SYS_close, fd) as libc::c_int
 }
 
 /// # Safety
